@@ -1,7 +1,7 @@
 (** C14 - A damaged directory entry affects only that entry.  Property theorems only (AKAI
     file table; the Roland records are handled by the correspondence/oracle run, see the
     claim). *)
-From SE Require Import Base Codecs Fat Cue Names AkaiImage AkaiProofs.
+From SE Require Import Base Codecs Fat Cue Names AkaiImage AkaiProofs NamesProofs NamesMoreProofs.
 
 (** The file-table loop treats every 24-byte entry on its own: for ANY table [es ++ tail]
     (any number of entries, none reading as the end mark) the result is the concatenation of
@@ -59,3 +59,85 @@ Example c14_example :
   is_entry e /\ kept [] [] e = Ok [] /\
   entries_loop 3 [] [] (concat [e; e] ++ ([0;0;0;0;0;0;0;0;71;215] ++ repeat 0 14)) = Ok [].
 Proof. cbv zeta. split; [split; [reflexivity|vm_compute; discriminate]|]. split; vm_compute; reflexivity. Qed.
+
+(** * Hypothesis h2 made precise: the sibling NAMES after one entry changed
+
+    The names `ls` prints and the export writes come from sanitize_names_general, which
+    looks at all siblings of a directory together.  Let ONE element of a directory be
+    replaced (damaged entry: its candidate name changes from [cand e] to [cand e'], at the same
+    position).  If the old and the new candidate are each different from every other
+    sibling's candidate, and neither is a counted form "g (i)" / "stem (i) L" (i >= 2) of a
+    candidate g that occurs more than once among the other siblings, then every OTHER
+    sibling is handed exactly the name it had before - for every sanitising function [f]
+    (make_safe_name, make_export_name), any number of siblings, any names. *)
+Theorem sibling_names_stable_under_one_change :
+  forall f pre e e' post names names',
+    let cand := fun x : list Z * bool => f (fst x) (snd x) in
+    let others := map cand (pre ++ post) in
+    ~ In (cand e) others -> ~ In (cand e') others ->
+    (forall g i, (2 <= count_occ_name g others)%nat -> 2 <= i ->
+       add_count g i <> cand e /\ add_count g i <> cand e') ->
+    sanitize_names f (pre ++ e :: post) = Ok names ->
+    sanitize_names f (pre ++ e' :: post) = Ok names' ->
+    forall j, j <> length pre -> nth_error names j = nth_error names' j.
+Proof. exact sibling_names_stable_lemma. Qed.
+Print Assumptions sibling_names_stable_under_one_change.
+
+(** Stronger: under the same hypotheses the two runs have the SAME OUTCOME (both succeed, or
+    both raise the same exception), and on success the two name lists are
+    np ++ [cand e] ++ nq and np ++ [cand e'] ++ nq with the same np, nq. *)
+Theorem sibling_names_one_change_same_outcome :
+  forall f pre e e' post,
+    let cand := fun x : list Z * bool => f (fst x) (snd x) in
+    let others := map cand (pre ++ post) in
+    ~ In (cand e) others -> ~ In (cand e') others ->
+    (forall g i, (2 <= count_occ_name g others)%nat -> 2 <= i ->
+       add_count g i <> cand e /\ add_count g i <> cand e') ->
+    res_same_shape
+      (fun o o' => exists np nq, o = np ++ cand e :: nq /\ o' = np ++ cand e' :: nq /\ length np = length pre)
+      (sanitize_names f (pre ++ e :: post)) (sanitize_names f (pre ++ e' :: post)).
+Proof. exact sanitize_names_one_change_lemma. Qed.
+Print Assumptions sibling_names_one_change_same_outcome.
+
+(** Both hypotheses are needed.  First witness: B, A -> A, A (the new name equals a
+    sibling's): the sibling becomes "A (2)".  Second witness: B, A, A -> "A (2)", A, A (the
+    new name differs from all siblings but is the counted form of the duplicated A): the
+    third element becomes "A (3)". *)
+Theorem sibling_names_change_collision_refuted :
+  (exists pre e e' post names names' j,
+      sanitize_names (fun n _ => n) (pre ++ e :: post) = Ok names /\
+      sanitize_names (fun n _ => n) (pre ++ e' :: post) = Ok names' /\
+      ~ In (fst e) (map fst (pre ++ post)) /\ In (fst e') (map fst (pre ++ post)) /\
+      j <> length pre /\ nth_error names j <> nth_error names' j)
+  /\ (exists pre e e' post names names' j,
+      sanitize_names (fun n _ => n) (pre ++ e :: post) = Ok names /\
+      sanitize_names (fun n _ => n) (pre ++ e' :: post) = Ok names' /\
+      ~ In (fst e) (map fst (pre ++ post)) /\ ~ In (fst e') (map fst (pre ++ post)) /\
+      j <> length pre /\ nth_error names j <> nth_error names' j).
+Proof. exact one_change_collision_refuted_lemma. Qed.
+
+(** Non-vacuity: files A, A, B, A with B replaced by C (export names): the hypotheses hold
+    (the counted forms of A all begin with "A"), both runs succeed, and the three A's keep
+    A, "A (2)", "A (3)". *)
+Example c14_names_example :
+  let pre := [([65], true); ([65], true)] in
+  let post := [([65], true)] in
+  let e := ([66], true) in let e' := ([67], true) in
+  let cand := fun x : list Z * bool => make_export_name (fst x) (snd x) in
+  let others := map cand (pre ++ post) in
+  (~ In (cand e) others /\ ~ In (cand e') others /\
+   (forall g i, (2 <= count_occ_name g others)%nat -> 2 <= i ->
+      add_count g i <> cand e /\ add_count g i <> cand e'))
+  /\ make_export_names (pre ++ e :: post) = Ok [[65]; [65;32;40;50;41]; [66]; [65;32;40;51;41]]
+  /\ make_export_names (pre ++ e' :: post) = Ok [[65]; [65;32;40;50;41]; [67]; [65;32;40;51;41]].
+Proof.
+  cbv zeta. split; [|split; vm_compute; reflexivity].
+  split; [vm_compute; intuition discriminate|]. split; [vm_compute; intuition discriminate|].
+  intros g i Hg _.
+  assert (Hin : In g [[65]; [65]; [65]]).
+  { destruct (in_dec (list_eq_dec Z.eq_dec) g [[65]; [65]; [65]]) as [H|H]; [assumption|].
+    exfalso. change (map _ _) with [[65]; [65]; [65]] in Hg.
+    rewrite (count_occ_name_zero g _ H) in Hg. lia. }
+  assert (g = [65]) by (cbn in Hin; intuition congruence). subst g.
+  change (add_count [65] i) with (65 :: 32 :: count_str i). vm_compute. split; discriminate.
+Qed.
